@@ -8,7 +8,7 @@
    unlocked check (can_disconnect).  Part 1 states the property for ALL schedules of that
    code.  Part 2 documents what the lock repaired: the same code without the lock (granularity
    GThread) violates the property, and every violation goes through the double-check window. *)
-From VT Require Import Conc.ConcProofs.
+From VT Require Import Conc.ConcProofs Conc.TwoSessions.
 
 (* ===================== Part 1: the code with the lock, all schedules ===================== *)
 
@@ -65,6 +65,41 @@ Theorem C20_lock_excludes_double_check :
 Proof. exact locked_window_exclusive. Qed.
 Print Assumptions C20_lock_excludes_double_check.
 
+(* Two sessions of ONE transport (a transport connected to namespaces nsa and nsb), a terminating
+   action aimed at each (disconnect() / DISCONNECT packet for that namespace, or the loss of the
+   transport, which is aimed at both) among any number of concurrent tasks: the lock is one lock
+   per server, so a task may have to wait for a task that works on the OTHER session; in ALL
+   schedules (pre-emption at every access, also inside the critical sections) each of the two
+   handlers runs at most once, no exception escapes, and when all tasks have finished each ran
+   exactly once and no trace of either session is left. *)
+Theorem C20_two_sessions_one_transport :
+  forall R m0 env0 causes, quiescent_start m0 ->
+  forall e sa sb nsa nsb, sid_from_eio m0 e nsa = Some sa -> sid_from_eio m0 e nsb = Some sb ->
+  forall ka kb, In ka causes -> In kb causes -> targets m0 ka sa nsa -> targets m0 kb sb nsb ->
+  forall sched,
+    let c := run_sched GLocked R causes sched m0 env0 in
+    hcount sa nsa (c_log c) <= 1 /\ hcount sb nsb (c_log c) <= 1 /\
+    (R = [] -> raised (c_log c) = false) /\
+    (all_done c = true ->
+       hcount sa nsa (c_log c) = 1 /\ hcount sb nsb (c_log c) = 1 /\
+       is_connected (c_mgr c) (Some sa) nsa = false /\ is_connected (c_mgr c) (Some sb) nsb = false /\
+       (forall r, room_ok r -> in_room (c_mgr c) nsa r sa = false /\ in_room (c_mgr c) nsb r sb = false) /\
+       aget str_eqb (callbacks (c_mgr c)) sa = None /\ aget str_eqb (callbacks (c_mgr c)) sb = None /\
+       (forall s ns, is_pending (c_mgr c) s ns = false)).
+Proof. exact locked_two_sessions. Qed.
+Print Assumptions C20_two_sessions_one_transport.
+
+(* The waiting matters: in the variant where _handle_disconnect() takes the lock with a
+   non-blocking acquire and returns when it is busy (run_try: a packet / loss task in front of
+   its acquire while another task is inside the critical section gives up on its namespace) the
+   property is FALSE - disconnect(S1, "/b") pre-empted inside the critical section, the loss of
+   the transport gives up on "/a": the handler of S0 never runs and S0 stays in the rooms. *)
+Theorem C20_trylock_refuted :
+  exists R m0 env0 causes sched, quiescent_start m0 /\
+    ~ outcome R m0 env0 causes (run_try R (init GLocked m0 env0 causes) sched).
+Proof. exact trylock_refuted. Qed.
+Print Assumptions C20_trylock_refuted.
+
 (* ============ Part 2: the code WITHOUT the lock (before the repair): what it fixed ============ *)
 
 (* Without the lock the property is FALSE: witnesses with two tasks (server.disconnect() in one
@@ -75,12 +110,13 @@ Theorem C20_refuted :
 Proof. exact thread_refuted. Qed.
 Print Assumptions C20_refuted.
 
-(* both tasks pass is_connected before either calls pre_disconnect: the handler runs twice and
-   pending_disconnect keeps the sid *)
+(* both tasks pass is_connected before either calls pre_disconnect: the handler runs twice.
+   (Until basic_disconnect was repaired to release the pending mark even when the namespace
+   table is already gone, pending_disconnect also kept the second mark of the sid.) *)
 Theorem C20_refuted_handler_twice :
   let c := run_sched GThread [] x_two x_sched_twice x_lone [x_e0] in
   all_done c = true /\ hcount (x_S "S0") x_sl (c_log c) = 2 /\ raised (c_log c) = false /\
-  is_pending (c_mgr c) (x_S "S0") x_sl = true.
+  is_pending (c_mgr c) (x_S "S0") x_sl = false.
 Proof. exact thread_refuted_twice. Qed.
 Print Assumptions C20_refuted_handler_twice.
 
